@@ -49,6 +49,10 @@ CHECKS = {
             "Delivery / creation / write monitors against a 10-line reference rule written from the statement, over a sweep of configurations (known/block lists disjoint, overlapping, empty, with/without explicit HGI, second HGI, gateway block-listed, enforcement on/off, the 'enforced but empty' rule) x packets of the three address shapes with src/dst from every id class, on a real port Gateway (fake serial + virtual air) and a real file Gateway: messages seen by an application handler, devices created (incl. ids only *named* in a 000C payload), and frames that reach the serial port from async_send_cmd().",
             "Reference rule is the oracle; only packets the decoder accepts on their own are used; the hard-wired 01:000001 id is never generated; 'refused though allowed' is judged only when the refusal text names the device filter.",
             "reference-rule differential monitor over configuration x packet sweeps on the real gateway stacks", "§3 C10"),
+    "C11": ("exploration",
+            "Write-time ledger at the serial.write() / MQTT publish() boundary under the real limiter code on a virtual clock (time.perf_counter as seen by the transport follows it): arrival patterns = back-to-back single caller, bursts of 2..200 concurrent callers, steady streams above and below the limit, long idle then burst, bucket-drain then mixed sizes, random mixes, payloads 1..48 bytes, virtual minutes to hours. Offline oracles over every window of the ledger (suffix max/min sweeps): bits written <= 384 bit/s x window + 23 040 + bits of the frames pending at the window's start; any k+1 writes span >= (k-1) x 0.05 s; every accepted frame written exactly once, unaltered, in request order; MQTT publishes in any window <= 160 + 1.33/s x window + 1, no publish held for more than 1 s, a drop only when the last minute already saw about 80 publishes.",
+            "A frame's bit size is the library's own deemed size; limiter constants are the shipped ones; tolerance 1 us / 1 bit; every scenario starts with a full bucket.",
+            "write-boundary ledger + offline all-windows oracle (conservation / spacing / exactly-once / order) on a virtual clock", "§3 C11"),
     "C13": ("exploration",
             "Views-never-raise + engine-still-runs monitors on real gateways (file-sourced, fed through the real transport's receive function, and a port gateway on a fake serial port with sending enabled) over packet histories derived from the recorded logs by deletion, duplication, windowed reordering, splicing with other systems' / HVAC / binding logs and field mutation inside the schema regexes (extreme values), eavesdropping on/off: every public view of the gateway and of each device/system/zone/DHW is read every k-th packet; get_state() and _restore_cached_packets() (own snapshot, corrupted snapshot, restored twice, cancelled half-way) are invoked at seeded points and - returned or raised - must leave the engine as found (not paused, same handler, same read-only and discovery flags), a marker packet put on the wire afterwards must be handled end-to-end and a command must reach the serial port; after foreign traffic the known controller must still be a system, keep its zones and report a fresh zone temperature.",
             "Histories are re-timed to increasing unique timestamps; the marker is a 30C9 from a thermostat id no log uses; exceptions reaching the loop handler from deferred entity handlers are recorded, not judged; the port gateway runs with the library's own duty-cycle debug switch on (C11's subject).",
